@@ -180,6 +180,22 @@ where
     t
 }
 
+thread_local! {
+    static LAST_PANIC_LOCATION: std::cell::RefCell<Option<String>> = const { std::cell::RefCell::new(None) };
+}
+
+/// panic hook that keeps stderr quiet and remembers where the last panic of this thread happened
+pub fn install_panic_hook() {
+    std::panic::set_hook(Box::new(|info| {
+        let loc = info.location().map(|l| format!("{}:{}", l.file(), l.line()));
+        LAST_PANIC_LOCATION.with(|c| *c.borrow_mut() = loc);
+    }));
+}
+
+pub fn last_panic_location() -> Option<String> {
+    LAST_PANIC_LOCATION.with(|c| c.borrow().clone())
+}
+
 /// Calls anthem code that may panic; a panic is reported to the caller as Err(message) so that
 /// the monitor can count the case as "lost to panic" (a C16 matter) instead of dying.
 pub fn guarded<T>(f: impl FnOnce() -> T) -> Result<T, String> {
